@@ -33,7 +33,7 @@ ASSUMPTIONS = [
     "Float rounding is not modelled; the verdict is about the implemented formula, not floating-point results.",
 ]
 EXHAUSTIVE = True
-FLOORS = {"R12.1": 400, "R12.2": 14, "R12.3": 1, "R12.4": 7, "R12.5": 200}
+FLOORS = {"R12.1": 400, "R12.2": 17, "R12.3": 1, "R12.4": 7, "R12.5": 200}
 
 PX = {"": Fraction(1), "px": Fraction(1), "pt": Fraction(4, 3), "pc": Fraction(16)}
 INCH = {"in": Fraction(1), "cm": Fraction(100, 254), "mm": Fraction(10, 254)}
@@ -348,6 +348,23 @@ def to_units(ctx):
                            "unit conversion factor differs from the CSS ratio")
                     found = True
         ctx.need(found, "R12.1", "%s: conversion statement not found" % qual)
+        # value() hands back the Length itself when it cannot resolve it; dividing that scales the amount and keeps the unit
+        # ('50%' -> '13.229%').  The arithmetic must be reached only with a number.
+        from ..flow import dominated
+
+        def is_number(test, positive, vn=value_name):
+            if isinstance(test, ast.Call) and isinstance(test.func, ast.Name) and test.func.id == "isinstance" and len(test.args) == 2 and isinstance(test.args[0], ast.Name) and test.args[0].id == vn:
+                names = {e.id for e in (test.args[1].elts if isinstance(test.args[1], ast.Tuple) else [test.args[1]]) if isinstance(e, ast.Name)}
+                if names == {"Length"}:
+                    return not positive
+                if names and names <= {"int", "float"}:
+                    return positive
+            return False
+
+        uses = [b for b in ast.walk(fn) if isinstance(b, ast.BinOp) and isinstance(b.op, (ast.Div, ast.Mult)) and any(isinstance(x, ast.Name) and x.id == value_name for x in (b.left, b.right))]
+        bad = [b for b in uses if not dominated(b, fn, is_number)]
+        ctx.ob("R12.2", qual + "[unresolved stays as it is]", bool(uses) and not bad, "; ".join("line %d: %s" % (b.lineno, ast.unparse(b)[:40]) for b in bad), fn.lineno,
+               "value() returns the Length unchanged when the context is missing; converting that anyway returns a different symbolic length (to_mm of '50%' gave '13.229%')")
 
 
 def degenerate_calls(ctx):
@@ -425,16 +442,19 @@ def equality(ctx):
     for su in UNITS:
         for ou in UNITS:
             same_family = fam(su) == fam(ou) and fam(su) in ("px", "in")
-            for equal_values in (True, False):
-                if equal_values and not (same_family or su == ou):
+            for equal_values in (True, False, "both zero"):
+                if equal_values is True and not (same_family or su == ou):
                     continue
                 a_s = atom("self.amount")
-                if equal_values:
+                if equal_values == "both zero":
+                    a_s = a_o = const(0)  # zero is zero in any unit: both resolve to 0 whatever the context
+                elif equal_values:
                     a_o = a_s if su == ou else a_s * R(su) / R(ou)
                 else:
                     a_o = atom("other.amount")
-                facts = Facts(strs={"self.units": su, "other.units": ou}, nulls={"other": False}, types={"other": "Length"})
-                alg = Alg(atom_map={"other.amount": a_o})
+                zero = equal_values == "both zero"
+                facts = Facts(strs={"self.units": su, "other.units": ou}, nulls={"other": False}, types={"other": "Length"}, zeros={"self.amount": zero, "other.amount": zero})
+                alg = Alg(atom_map={"other.amount": a_o, "self.amount": a_s} if zero else {"other.amount": a_o})
 
                 def on_assign(stmt, facts, alg):
                     v = stmt.value if isinstance(stmt, ast.Assign) else None
@@ -464,13 +484,13 @@ def equality(ctx):
                         return facts.strs["self.units"] == facts.strs["other.units"] and alg.ev(ast.parse("self.amount", mode="eval").body) == alg.ev(ast.parse("other.amount", mode="eval").body)
                     return None
 
-                cons = "Length.__eq__[%s==%s,%s]" % (su or "''", ou or "''", "equal values" if equal_values else "independent amounts")
+                cons = "Length.__eq__[%s==%s,%s]" % (su or "''", ou or "''", "both zero" if zero else "equal values" if equal_values else "independent amounts")
                 out = walk(body, facts, alg, ctx.m, "R12.5", cons, on_assign=on_assign, on_test=on_test)
                 n += 1
                 if out.kind != "return" or not isinstance(out.node, ast.Constant) or not isinstance(out.node.value, bool):
                     ctx.ob("R12.5", cons, False, "result %s" % (ast.unparse(out.node) if out.node is not None else out.kind), eq.lineno, "equality must answer True or False")
                     continue
-                want = equal_values
+                want = bool(equal_values)
                 ctx.ob("R12.5", cons, out.node.value == want, "answers %s" % out.node.value, out.stmt.lineno,
                        "a == b must hold exactly when both lengths resolve to the same value", sample=(su == "pt" and ou == "pc"))
     ctx.need(n >= 200, "R12.5", "too few equality cells (%d)" % n)
